@@ -729,7 +729,7 @@ def check_rec(cx, chk):
         if lookups and not guard:
             p, b, i = lookups[0]
             # the finding is identified by the trait methods of the cycle (helper functions come and go with refactoring)
-            knames = sorted({short(p) for p in comp if mir.qself(p) is not None}) or names
+            knames = sorted({short(p) for p in comp if mir.qself(p) is not None or cg.fns[p].get("trait_decl")}) or names
             chk.violation("C15.rec", "by-name-recursion %s" % "+".join(knames[:3]),
                           "the recursion %s goes through a by-name rule lookup (include) without a cycle guard: it is not bounded by the "
                           "grammar tree, so `A = >A;` (or a longer include cycle) overflows the stack" % names[:6], cx.site(b, i))
